@@ -261,7 +261,7 @@ impl Prop for PWalk {
         // (C18: also a name with a newline in it - as a starting point it can only come from a -files0-from list or be quoted)
         // (C18: also names that begin like an operator of the expression; all: names that differ from a sibling's by a
         // suffix that sorts before '/' - "a", "a b", "a.b", "a-" - where byte-wise name order and path order part ways)
-        let names: Vec<&str> = if self.flavour == "C18" { vec!["a", "b", "c", "d", "e", "ab", "ba", "x.y", "A", "a b", "é", "-n", "x\ny", "(old)", "!x", ",v", ")z", "a.b"] }
+        let names: Vec<&str> = if self.flavour == "C18" { vec!["a", "b", "c", "d", "e", "ab", "ba", "x.y", "A", "a b", "é", "-n", "x\ny", "(old)", "!x", ",v", ")z", "a.b", "nl\n"] }
                                else { vec!["a", "b", "c", "d", "e", "ab", "ba", "x.y", "A", "a b", "é", "-n", "a.b", "a-"] };
         let mut tree: Vec<Value> = vec![];
         let mut dirs: Vec<usize> = vec![]; // 1-based ids of directories
@@ -479,9 +479,20 @@ impl Prop for PWalk {
         if idx % 25 == 9 && !use_files0 {
             let dirs: Vec<usize> = (1..=tree.len()).filter(|i| tree[i - 1]["kind"] == "d" && tree[i - 1]["parent"].as_u64() == Some(0)).collect();
             if let Some(&d) = dirs.first() {
-                tree.push(json!({"parent": 0, "name": str_to_json("hroot"), "kind": "l", "target": d}));
-                let k = tree.len();
-                roots = vec![json!({"spell": str_to_json(*rng.pick(&["hroot", "./hroot"])), "node": k})];
+                if rng.chance(1, 2) {
+                    tree.push(json!({"parent": 0, "name": str_to_json("hroot"), "kind": "l", "target": d}));
+                    let k = tree.len();
+                    roots = vec![json!({"spell": str_to_json(*rng.pick(&["hroot", "./hroot"])), "node": k})];
+                } else {
+                    // ... the link one directory down, its text relative to that directory (not to where find runs)
+                    tree.push(json!({"parent": 0, "name": str_to_json("hd"), "kind": "d", "target": 0}));
+                    let hd = tree.len();
+                    let mut text = b"../".to_vec();
+                    text.extend(json_to_bytes(&tree[d - 1]["name"]));
+                    tree.push(json!({"parent": hd, "name": str_to_json("hroot"), "kind": "l", "target": d, "text": bytes_to_json(&text)}));
+                    let k = tree.len();
+                    roots = vec![json!({"spell": str_to_json("hd/hroot"), "node": k})];
+                }
                 cfg["mode"] = json!("H");
                 cfg["depth"] = json!(true);
                 mode = "H";
